@@ -2,26 +2,22 @@
 """Regenerates MANIFEST.json from the registry below (one entry per claimed property)."""
 import json
 import os
+import re
 import subprocess
 
 VERIF = os.path.dirname(os.path.dirname(os.path.abspath(__file__)))
 
-CLAIMED = {
-    "C18": dict(
-        category="proof",
-        text="Machine-checked refinement proof (Coq): for every operation history, over any number of handles, the "
-             "Arc/VecDeque/view model of numbat/src/list.rs returns exactly what plain immutable sequences return, "
-             "never panics, and leaves every other handle's contents unchanged (C18_refines, C18_no_panic, "
-             "C18_others_unchanged, C18_reachable_inv; all closed under the global context). The model is tied to the "
-             "code by a per-step correspondence check on real NumbatList handles that also compares the internal "
-             "representation (sharing classes, views, strong counts, allocation lengths) through a hook.",
-        design_ref="DESIGN.md §6 C18",
-        note="Trusted: Coq kernel + vm_compute; the hand port of list.rs in coq/theories/ListM/Model.v (validated by the "
-             "correspondence on bounded-exhaustive and random histories, not proved against Rust); Arc::strong_count = "
-             "number of live handles; element equality reflexive; memory safety is Rust's.",
-        technique="Coq refinement proof (invariant + induction over histories) + model/implementation correspondence by vm_compute",
-    ),
-}
+import importlib
+import sys
+sys.path.insert(0, os.path.join(VERIF, "tools"))
+
+# every tools/props/cXX.py that defines MANIFEST = dict(category, text, design_ref, note, technique) is claimed
+CLAIMED = {}
+for _n in sorted(os.listdir(os.path.join(VERIF, "tools", "props"))):
+    if re.match(r"c\d+\.py$", _n):
+        _m = importlib.import_module("props." + _n[:-3])
+        if getattr(_m, "MANIFEST", None):
+            CLAIMED[_n[:-3].upper()] = _m.MANIFEST
 
 NOT_APPLICABLE = {
     "C24": "a finite list of ~177 concrete documentation snippets run through the whole interpreter and FFI; executing them is a test, and a theorem would need a model of the entire standard library and FFI (DESIGN.md §6 C24)",
